@@ -24,6 +24,17 @@ GeoFails(e) ==
         THEN {"CosLat|area_weighted_connectivity"} ELSE {})
   \cup (IF \E a \in 1..n : ~Close(o.maxld6[a], MaxN(LAMBDA b : o.A[a][b] * o.ang[a][b], 1, n, 0), 5)
         THEN {"Consistent|max_link_distance"} ELSE {})
+  \* "irrigation" weights are cos^2(lat); totals and means are those of the weight vector in force
+  \cup (IF \E a \in 1..n : ~Close(o.irr4[a], (CosLat4(e.lat[a]) * CosLat4(e.lat[a])) \div 10000, 4)
+            \/ ~Close(o.sw4[a], o.irr4[a], 1)
+        THEN {"CosLat|node_weights(irrigation)"} ELSE {})
+  \cup (IF ~Close(o.tot4, SumN(LAMBDA a : o.w4[a], 1, n), n + 2)
+            \/ ~Close(o.mean4 * n, SumN(LAMBDA a : o.w4[a], 1, n), 2 * n + 2)
+        THEN {"Consistent|total_node_weight(surface)"} ELSE {})
+  \cup (IF ~Close(o.irrtot4, SumN(LAMBDA a : o.irr4[a], 1, n), n + 2)
+            \/ ~Close(o.irrmean4 * n, SumN(LAMBDA a : o.irr4[a], 1, n), 2 * n + 2)
+            \/ ~Close(o.swtot4, SumN(LAMBDA a : o.sw4[a], 1, n), n + 2)
+        THEN {"Consistent|total_node_weight(irrigation)"} ELSE {})
   \* the distances the grid serves after a network on it has been analysed are the same distances
   \cup (IF o.ang2 # o.ang THEN {"Stable|angular_distance"} ELSE {})
 EucFails(e) ==
